@@ -126,6 +126,26 @@ def run(tier, seed):
         else:
             rec.fail(f"{want_print}|{d!r}", f"patch {ops!r} on {d!r}: {bad}",
                      f"import copy, json\nfrom jsonpath import JSONPatch\nops = {ops!r}\ndoc = {d!r}\np = JSONPatch(copy.deepcopy(ops), unicode_escape=False)\nprint(p.asdicts())\na = p.apply(copy.deepcopy(doc)); b = p.apply(copy.deepcopy(doc))\nprint(a, b, p.asdicts())\nsys.exit(0 if a == b and json.dumps(p.asdicts(), sort_keys=True) == json.dumps(ops, sort_keys=True) else 1)")
+    # construction routes under the non-default decoding switches
+    for ud, ue in ((True, False), (True, True), (False, True)):
+        for path, doc in (("/a%20b/x", {"a b": {"x": 1}, "a%20b": {"x": 2}}), ("/a\\u0062", {"ab": 1, "a\\u0062": 2}), ("/%7E0", {"~": 1, "%7E0": 2, "~0": 3})):
+            ops = [{"op": "replace", "path": path, "value": "new"}, {"op": "copy", "from": path, "path": "/copied"}]
+            try:
+                p_doc = JSONPatch(copy.deepcopy(ops), unicode_escape=ue, uri_decode=ud)
+                p_bld = JSONPatch(unicode_escape=ue, uri_decode=ud).replace(path, "new").copy(path, "/copied")
+                same = p_doc.asdicts() == p_bld.asdicts() and repr(outcome(p_doc, doc)) == repr(outcome(p_bld, doc))
+                why = f"document form prints {p_doc.asdicts()!r} -> {outcome(p_doc, doc)!r}; builder prints {p_bld.asdicts()!r} -> {outcome(p_bld, doc)!r}"
+            except Exception as e:  # noqa: BLE001
+                same, why = False, f"{type(e).__name__}: {e}"
+            if same:
+                rec.ok((path, ud, ue))
+            else:
+                rec.fail(f"switches:{path}:{ud}:{ue}", f"JSONPatch(unicode_escape={ue}, uri_decode={ud}) with path {path!r} on {doc!r}: {why}",
+                         f"import copy
+from jsonpath import JSONPatch
+ops = {ops!r}
+a = JSONPatch(copy.deepcopy(ops), unicode_escape={ue}, uri_decode={ud}); b = JSONPatch(unicode_escape={ue}, uri_decode={ud}).replace({path!r}, 'new').copy({path!r}, '/copied')
+print(a.asdicts(), b.asdicts()); sys.exit(0 if a.asdicts() == b.asdicts() else 1)")
     # addne / addap against add
     for d in docs:
         for path in C5.paths_for(d):
